@@ -108,6 +108,8 @@ struct Dumper
             o[ "s" ] = ty( t );
             if( depth < 6 )
                if( const auto* rd = t->getAsCXXRecordDecl() ) {
+                  if( depth == 0 )
+                     recordFacts( rd );
                   o[ "q" ] = rd->getQualifiedNameAsString();
                   if( const auto* sp = dyn_cast< ClassTemplateSpecializationDecl >( rd ) ) {
                      o[ "tn" ] = sp->getSpecializedTemplate()->getQualifiedNameAsString();
@@ -164,6 +166,97 @@ struct Dumper
       return json::Value( std::move( arr ) );
    }
 
+   std::map< std::string, json::Value > records;
+
+   void recordFacts( const CXXRecordDecl* rd )
+   {
+      if( !rd || !rd->hasDefinition() || rd->isDependentContext() || rd->isLambda() )
+         return;
+      rd = rd->getDefinition();
+      std::string key = ty( C.getRecordType( rd ) );
+      if( records.count( key ) )
+         return;
+      std::string q = rd->getQualifiedNameAsString();
+      if( q.compare( 0, 5, "std::" ) == 0 || q.compare( 0, 2, "__" ) == 0 )
+         return;
+      records.emplace( key, nullptr );
+      json::Object o;
+      o[ "q" ] = q;
+      o[ "loc" ] = loc( rd->getLocation() );
+      if( const auto* sp = dyn_cast< ClassTemplateSpecializationDecl >( rd ) ) {
+         o[ "tn" ] = sp->getSpecializedTemplate()->getQualifiedNameAsString();
+         o[ "a" ] = targs( &sp->getTemplateArgs() );
+      }
+      json::Array bases;
+      for( const auto& b : rd->bases() ) {
+         bases.push_back( ty( b.getType() ) );
+         recordFacts( b.getType()->getAsCXXRecordDecl() );
+      }
+      o[ "bases" ] = std::move( bases );
+      json::Array fields;
+      for( const auto* f : rd->fields() ) {
+         json::Object fo;
+         fo[ "n" ] = f->getNameAsString();
+         fo[ "t" ] = ty( f->getType() );
+         fields.push_back( std::move( fo ) );
+      }
+      o[ "fields" ] = std::move( fields );
+      json::Array methods;
+      json::Object consts;
+      json::Object aliases;
+      for( const auto* d : rd->decls() ) {
+         const FunctionDecl* fd = nullptr;
+         if( const auto* m = dyn_cast< CXXMethodDecl >( d ) )
+            fd = m;
+         else if( const auto* ft = dyn_cast< FunctionTemplateDecl >( d ) )
+            fd = ft->getTemplatedDecl();
+         if( fd ) {
+            if( fd->isImplicit() )
+               continue;
+            json::Object mo;
+            mo[ "n" ] = fd->getDeclName().getAsString();
+            if( fd->isDeleted() )
+               mo[ "deleted" ] = true;
+            if( fd->isDefaulted() )
+               mo[ "defaulted" ] = true;
+            if( const auto* m = dyn_cast< CXXMethodDecl >( fd ) )
+               if( m->isStatic() )
+                  mo[ "static" ] = true;
+            if( fd->isNoReturn() )
+               mo[ "noret" ] = true;
+            mo[ "np" ] = (int64_t)fd->getNumParams();
+            mo[ "body" ] = fd->doesThisDeclarationHaveABody();
+            if( isa< CXXConstructorDecl >( fd ) ) {
+               const auto* cd = cast< CXXConstructorDecl >( fd );
+               if( cd->isCopyConstructor() )
+                  mo[ "copyctor" ] = true;
+               if( cd->isMoveConstructor() )
+                  mo[ "movector" ] = true;
+            }
+            methods.push_back( std::move( mo ) );
+         }
+         else if( const auto* vd = dyn_cast< VarDecl >( d ) ) {
+            if( vd->isStaticDataMember() && vd->getType()->isIntegralOrEnumerationType() ) {
+               const Expr* init = vd->getAnyInitializer();
+               if( init && !init->isValueDependent() ) {
+                  Expr::EvalResult r;
+                  if( init->EvaluateAsRValue( r, C ) && r.Val.isInt() )
+                     consts[ vd->getNameAsString() ] = apint( r.Val.getInt() );
+               }
+            }
+         }
+         else if( const auto* td = dyn_cast< TypedefNameDecl >( d ) ) {
+            QualType ut = td->getUnderlyingType();
+            if( !ut->isDependentType() )
+               aliases[ td->getNameAsString() ] = targ( TemplateArgument( ut ), 0 );
+         }
+      }
+      o[ "methods" ] = std::move( methods );
+      o[ "consts" ] = std::move( consts );
+      o[ "aliases" ] = std::move( aliases );
+      records.find( key )->second = json::Value( std::move( o ) );
+   }
+
    json::Value classInfo( const DeclContext* dc )
    {
       // innermost enclosing record
@@ -172,6 +265,7 @@ struct Dumper
       if( !dc )
          return nullptr;
       const auto* rd = cast< CXXRecordDecl >( dc );
+      recordFacts( rd );
       json::Object o;
       o[ "q" ] = rd->getQualifiedNameAsString();
       o[ "s" ] = ty( C.getRecordType( rd ) );
@@ -839,6 +933,10 @@ struct Consumer : ASTConsumer
       json::Object root;
       root[ "functions" ] = std::move( fns );
       root[ "inventory" ] = std::move( inv );
+      json::Object recs;
+      for( auto& kv : D.records )
+         recs[ kv.first ] = std::move( kv.second );
+      root[ "records" ] = std::move( recs );
       std::error_code ec;
       if( OutFile == "-" ) {
          llvm::outs() << json::Value( std::move( root ) ) << "\n";
